@@ -455,7 +455,7 @@ class C18:
         if tree["single"]:
             materialise(base, [[tree["name"], tree["files"][0][1], tree["files"][0][2]]])
         else:
-            materialise(root, tree["files"], tree["dirs"])
+            materialise(root, tree["files"], tree["dirs"], tree.get("links", ()))
         for d in ("meta", "cwd", "outdir"):
             os.makedirs(os.path.join(sb, d))
         counters, viol = {}, []
